@@ -143,8 +143,14 @@ func main() {
 	prop := flag.String("prop", "", "property id")
 	tier := flag.String("tier", "quick", "quick|thorough")
 	replay := flag.String("replay", "", "replay file")
+	flag.String("part", "", "sub-check of a property decided by several engines (formula, registry)")
 	flag.Parse()
-	f, ok := checks[*prop]
+	part := flag.Lookup("part").Value.String()
+	name := *prop
+	if part != "" {
+		name = *prop + ":" + part
+	}
+	f, ok := checks[name]
 	if !ok {
 		fmt.Fprintln(os.Stderr, "enum: unknown property", *prop)
 		os.Exit(2)
